@@ -602,6 +602,10 @@ func (s *scn) applyIBTP(st CStep) {
 		if ib.Type == pb.IBTP_RECEIPT_ROLLBACK {
 			sender = p.src.chain.admin
 		}
+		if st.GJ {
+			// an unusual but well-formed input: the receipt of a one-to-one request carries a group descriptor
+			ib.Group = &pb.StringUint64Map{Keys: []string{to}, Vals: []uint64{ib.Index}}
+		}
 	}
 	switch st.Sender {
 	case "other":
